@@ -88,7 +88,18 @@ fn main() {
         i += 1;
     }
     xsgv::subject::silence_panics();
-    let code = xsgv::props::dispatch(&prop, tier, replay.as_deref());
+    // a panic of the harness itself (not of the library, which is always called guarded) is a
+    // machinery failure with a message, never a silent exit
+    let code = match std::panic::catch_unwind(|| xsgv::props::dispatch(&prop, tier, replay.as_deref())) {
+        Ok(c) => c,
+        Err(p) => {
+            let msg = p.downcast_ref::<&str>().map(|s| s.to_string()).or_else(|| p.downcast_ref::<String>().cloned()).unwrap_or_default();
+            let loc = xsgv::subject::LAST_PANIC_LOCATION.with(|c| c.borrow().clone()).unwrap_or_default();
+            eprintln!("MACHINERY-ERROR: the harness panicked while checking {} ({} {})", prop, msg, loc);
+            println!("MACHINERY-ERROR: the harness panicked while checking {} ({} {})", prop, msg, loc);
+            2
+        }
+    };
     std::process::exit(code);
 }
 
